@@ -82,6 +82,8 @@ uint64_t clock_total();                    // all steps counted in SUT mode so f
 
 // ---------------------------------------------------------------- fatal events
 void fatal_install();
+void run_deadline(unsigned seconds);      // wall-clock allowance for the current run (SIGALRM -> FATAL class=hang); 0 cancels
+void run_deadline(unsigned seconds);      // wall-clock allowance for the current run (SIGALRM -> FATAL class=hang)
 void fatal_context(const char *fmt, ...) __attribute__((format(printf, 1, 2)));
 [[noreturn]] void fatal(const char *cls, const char *detail);
 // exit codes of a worker that died on a fatal event
